@@ -452,9 +452,68 @@ def startup_matrix(_):
   return n, bad[:3]
 
 
+def peers(_):
+  """Who the peer is must not matter: the same hostile frames from loopback (IPv4, IPv6), a private and a public address, and
+  over a UNIX socket (the peer address is whatever transport.getPeer() reports)."""
+  settings = env.boot()
+  env.reset_state()
+  install_hook()
+  import carbon.protocols as P
+  from twisted.internet.testing import StringTransport
+  from twisted.internet.address import IPv4Address, IPv6Address, UNIXAddress
+  from .. import canary
+  settings['USE_INSECURE_UNPICKLER'] = False
+  hostile = []
+  for rname, body in sorted(pk.call_routes('mc.canary', 'fire', 'Cls', 'OldStyle', {}).items()):
+    if not rname.startswith('EXT'):
+      hostile.append(('call:%s' % rname, pk.prog(body, 2)))
+  hostile.append(('lookup:GLOBAL os.system', pk.prog(pk.g_global('os', 'system'), 2)))
+  addrs = [IPv4Address('TCP', '127.0.0.1', 40000), IPv4Address('TCP', '127.8.9.1', 40000), IPv6Address('TCP', '::1', 40000),
+           IPv4Address('TCP', '10.1.2.3', 40000), IPv4Address('TCP', '192.0.2.7', 40000), IPv6Address('TCP', 'fe80::1', 40000),
+           IPv4Address('TCP', '0.0.0.0', 0)]
+  bad = []
+  n = 0
+  for cls in (P.MetricPickleReceiver, P.CacheManagementHandler):
+    for addr in addrs:
+      for what, payload in hostile:
+        proto = cls()
+        tr = StringTransport(peerAddress=addr)
+        try:
+          proto.makeConnection(tr)
+        except Exception as e:   # noqa
+          bad.append(('peer:exception', '%s.connectionMade() raised %r for peer %r' % (cls.__name__, e, addr), {'peer': str(addr)}))
+          break
+        del canary.FIRED[:]
+        AUDIT['find_class'] = []
+        AUDIT['on'] = True
+        try:
+          try:
+            proto.dataReceived(pk.frame(payload))
+          except BaseException:   # noqa
+            pass
+        finally:
+          AUDIT['on'] = False
+        n += 1
+        v = None
+        if canary.FIRED:
+          v = 'canary invoked: %r' % (canary.FIRED[:2],)
+        else:
+          for mod, name in AUDIT['find_class']:
+            if (mod, name) not in ALLOW:
+              v = 'the stock find_class looked up %s.%s' % (mod, name)
+        if v and len(bad) < 3:
+          bad.append(('peer-dependent', '%s from peer %s, hostile frame (%s): %s' % (cls.__name__, addr, what, v),
+                      {'peer': str(addr), 'protocol': cls.__name__, 'payload_hex': payload.hex(), 'what': what}))
+  return n, bad
+
+
 def run(ctx):
   load_daemon_modules()
   install_hook()
+  pn, pbad = core.pmap(peers, [0], fresh=True)[0]
+  for key, what, rep in pbad:
+    ctx.violation(key, what, rep)
+  ctx.add(peer_address_cases=pn)
   sn, sbad = startup_matrix(0)
   for key, what, rep in sbad:
     ctx.violation(key, what, rep)
@@ -518,6 +577,13 @@ def replay(path):
     n, bad = config_matrix(0)
     for key, what, _ in bad:
       print('oracle: [%s] %s' % (key, what))
+    return 1 if bad else 0
+  if 'peer' in rep:
+    n, bad = peers(0)
+    for key, what, _ in bad[:2]:
+      print('oracle: [%s] %s' % (key, what))
+    if not bad:
+      print('oracle: holds')
     return 1 if bad else 0
   if 'startup' in rep:
     n, bad = startup_matrix(0)
